@@ -62,7 +62,9 @@ func (h HelperContext) BlockWith(hc hctx.Context) (string, error) {
 	}
 
 	bb := &strings.Builder{}
-	h.compiler.write(bb, i)
+	if err := h.compiler.safeWrite(bb, i); err != nil {
+		return "", err
+	}
 
 	return bb.String(), nil
 }
